@@ -93,7 +93,7 @@ def gen_exp(rnd, cfg, depth, calls, allcalls=(), itemful=False, innames=False):
     if cfg.lookahead and not itemful:
         table += [(3, 'and'), (3, 'not')]
     if cfg.names and not innames:
-        table += [(6, 'named'), (3, 'namedl'), (2, 'ovr'), (1, 'ovrl')]
+        table += [(6, 'named'), (3, 'namedl'), (2, 'ovr'), (1, 'ovrl'), (2, 'nestnamed')]
     if cfg.skipto:
         table.append((1, 'skipto'))
     if not itemful:
@@ -134,6 +134,22 @@ def gen_exp(rnd, cfg, depth, calls, allcalls=(), itemful=False, innames=False):
             body = ('seq', (('tok', rnd.choice(cfg.toks)), body))
         sep = ('tok', rnd.choice([',', '+'])) if rnd.random() < 0.85 else ('pat', '[;:]')
         return ('join', sep, body, rnd.random() < 0.5, rnd.random() < 0.5)
+    if k == 'nestnamed':
+        # a name around a branch that may or may not bind another name: the inner name is still a key of the rule's AST
+        outer, inner = rnd.sample(NAMES, 2)
+        leaf = gen_leaf(rnd, cfg, calls, True)
+        other = gen_leaf(rnd, cfg, calls, True)
+        nk = rnd.choice(['named', 'named', 'namedl'])
+        shape = rnd.randrange(4)
+        if shape == 0:
+            body = ('grp', ('alt', ((nk, inner, leaf), other)))
+        elif shape == 1:
+            body = ('grp', ('alt', (other, (nk, inner, leaf))))
+        elif shape == 2:
+            body = ('grp', ('seq', (other, ('opt', (nk, inner, leaf)))))
+        else:
+            body = ('star', ('seq', (('tok', rnd.choice(cfg.toks)), (nk, inner, leaf))))
+        return (rnd.choice(['named', 'named', 'namedl']), outer, body)
     if k in ('named', 'namedl'):
         return (k, rnd.choice(NAMES), sub(itemful=cfg.itemful_names or itemful, innames=rnd.random() < 0.7))
     if k in ('ovr', 'ovrl'):
